@@ -317,6 +317,10 @@ func (d *txd) coq() string {
 		return fmt.Sprintf("CUnvote %d %s", d.RefID, pairs())
 	case "topup":
 		return fmt.Sprintf("CTopup %d %d %d", d.P, d.Amount, d.RefID)
+	case "revert-to-pow":
+		return "CRevPow"
+	case "revert-to-dpos":
+		return fmt.Sprintf("CRevDpos %d", d.Amount)
 	}
 	rs := make([]string, len(d.Refs))
 	for i, r := range d.Refs {
@@ -561,7 +565,6 @@ func (g *gen) block(height uint32) *blockd {
 				b.Txs = append(b.Txs, d)
 			}
 			used[-1] = true
-			g.unmodelled = true
 		case 8:
 			if exists && !used[i] && st != state.Returned {
 				d := &txd{Kind: "topup", P: i, Amount: int64(g.rng.Range(1, 50)) * 1e8}
@@ -615,7 +618,7 @@ const (
 
 func project(in *inst, g *gen) []int64 {
 	K := len(keys)
-	v := make([]int64, K*11+nNick+2*nRef+3)
+	v := make([]int64, K*11+nNick+2*nRef+9)
 	a := in.abt
 	b2i := func(b bool) int64 {
 		if b {
@@ -658,6 +661,12 @@ func project(in *inst, g *gen) []int64 {
 	v[base] = int64(a.LastBlockTimestamp)
 	v[base+1] = int64(a.LastIrreversibleHeight)
 	v[base+2] = int64(a.DPOSStartHeight)
+	v[base+3] = int64(a.ConsensusAlgorithm)
+	v[base+4] = int64(a.DPOSWorkHeight)
+	v[base+5] = int64(a.RevertToPOWBlockHeight)
+	v[base+6] = b2i(a.NoProducers)
+	v[base+7] = b2i(a.NoClaimDPOSNode)
+	v[base+8] = b2i(a.NeedRevertToDPOSTX)
 	return v
 }
 
